@@ -169,6 +169,7 @@ DOC_CASES = [
     ({'a': 1}, {'a': 1, 'b': 2}, {'a': 1, 'b': 7}, "accepted"),      # dictionary_item_added over an existing key
     ([1, 2, 3, 4], [0, 1, 2, 3, 5], [9, 9, 9, 4], "accepted:default-mode"),   # opcodes: old values not compared
     ({'a': 1, 'b': 2}, {'b': 2}, None, "order"),                     # t2 - d == t1 but the key order differs
+    ({'a': 1, 'b': 2}, {'b': 20, 'a': 10}, None, "korder"),          # C08_diff_symmetric_without_korder_refuted
 ]
 
 
@@ -184,6 +185,21 @@ def doc_cases(ctx, cases):
             rem, add = DC.impl_orders(d)
             conv = DC.conv_table(DC.type_change_pairs(dd))
             tag = dict(t1=repr(t1), t2=repr(t2), base=repr(base), zip=zip_, documented=want)
+            if want == "korder":
+                # the code walks the common keys in t2's order, the model in t1's; the implementation inverts the pair
+                order = [repr(DC.parse_pathc(p_)) for p_ in d.diff.get("values_changed", {})]
+                code_is_t2_order = order == [repr(DC.parse_pathc("root['%s']" % k)) for k in t2]
+                ctx.count("doc:korder_witness:code_walks_common_keys_in_t2_order" if code_is_t2_order else "doc:korder_witness:CODE_ORDER_CHANGED")
+                ctx.seen(("doc-korder", zip_), nontrivial=True)
+                if not holds8(t1, t2, cfg):
+                    ctx.fail(dict(clause=INVERSION, t1=repr(t1), t2=repr(t2), cfg=cfg, **c01.describe(t1, t2)), "the korder witness is not inverted")
+                fwd, back = copy.deepcopy(t1) + d, copy.deepcopy(t2) - d
+                for op_, base_, res_, ro_ in (("add", t1, fwd, DC.impl_orders(d)), ("sub", t2, back, None)):
+                    if ro_ is None:
+                        rd_ = Delta(dd, bidirectional=True); rd_.diff = rd_._get_reverse_diff(); ro_ = DC.impl_orders(rd_)
+                    cases.append((DC.model_expr(t1, t2, zip_, 0, True, False, base_, conv, ro_[0], ro_[1], want=op_),
+                                  [DC.delta_obs(d.diff), [DC.canon_unordered(res_), False]], dict(tag, op="korder witness: " + op_)))
+                continue
             if want == "order":
                 back = copy.deepcopy(t2) - d
                 same_order = V.canon(back) == V.canon(t1)
@@ -203,6 +219,45 @@ def doc_cases(ctx, cases):
             ctx.seen(("doc", repr(t1), repr(t2), repr(base), zip_), nontrivial=True)
             cases.append((DC.model_expr(t1, t2, zip_, 0, True, False, base, conv, rem, add),
                           [DC.delta_obs(d.diff), [DC.canon_unordered(res), cnt.n > 0]], dict(tag, op="documented verification behaviour")))
+
+
+def _same_key(a, b):
+    return V.canon_atom(a) == V.canon_atom(b)
+
+
+def _nonneg_key(a):
+    return not (isinstance(a, (bool, int)) and int(a) < 0)
+
+
+def sep_py(a, b):
+    """mirror of DeltaVerify.sep: not ==-equal and no negative index"""
+    return (not DC._py_eq(a, b)) and _nonneg_key(a) and _nonneg_key(b)
+
+
+def diverge_py(p, q):
+    """mirror of DeltaVerify.diverge on key sequences"""
+    for a, b in zip(p, q):
+        if _same_key(a, b):
+            continue
+        return sep_py(a, b)
+    return False
+
+
+def removed_key_guard(q, delta, drem_order):
+    """mirror of DeltaVerifyBase.leaves_alone q d && earlier_ok q l1 (l1 = the removals the implementation visits before q)"""
+    diff = delta.diff
+    P = lambda s_: py_path(DC.parse_pathc(s_))
+    ok = all(diverge_py(q, P(p_)) for cat in ("values_changed", "type_changes", "set_item_added", "set_item_removed",
+                                              "_iterable_opcodes", "dictionary_item_added") for p_ in diff.get(cat, {}))
+    ok = ok and all(diverge_py(q, P(p_)[:-1]) for cat in ("iterable_item_removed", "iterable_item_added") for p_ in diff.get(cat, {}))
+    ok = ok and all(diverge_py(q, P(p_)[:-1]) and diverge_py(q, P(ch["new_path"])[:-1]) for p_, ch in diff.get("iterable_item_moved", {}).items())
+    for pc in drem_order:
+        p_ = py_path(pc)
+        if len(p_) == len(q) and all(_same_key(a, b) for a, b in zip(p_, q)):
+            break
+        same_parent = bool(p_) and len(p_) == len(q) and all(_same_key(a, b) for a, b in zip(p_[:-1], q[:-1]))
+        ok = ok and (diverge_py(q, p_[:-1]) or (same_parent and sep_py(q[-1], p_[-1])))
+    return ok
 
 
 def ntp_vals(t2, d):
@@ -297,7 +352,21 @@ def _inv_only(m):
     return f
 
 
-MATCHERS = {"F4": _inv_only(c01.m_tuple_container), "KA": _inv_only(c01.m_alias),
+def one_item_sets_added(v):
+    """does the value hold a one-element set anywhere a flat-row conversion looks (the value itself)"""
+    return isinstance(v, set) and len(v) == 1
+
+
+def m_flat_rows_pop(case):
+    """F11: the failure is 'the delta changed under a read-only conversion', the conversion is to_flat_rows / to_flat_dicts,
+    the delta adds a dictionary item whose value is a ONE-element set, and exactly such a set is what got emptied"""
+    if case.get("clause") != REUSE or case.get("observer") not in ("to_flat_rows", "to_flat_dicts"):
+        return False
+    emptied = case.get("emptied_one_item_sets")
+    return bool(emptied) and case.get("other_payload_changes") is False
+
+
+MATCHERS = {"F4": _inv_only(c01.m_tuple_container), "KA": _inv_only(c01.m_alias), "F11": m_flat_rows_pop,
             "F7": lambda c: False,   # bidirectional deltas always carry the values
             "F9": m_path_cache}
 THRS = (0, 0.33, 0.9)
@@ -445,6 +514,71 @@ def variant_checks(ctx, t1, t2, dd, d, base_case, corrupt_bases, all_=False):
                          "a mismatched base was accepted (shape %s, flags %s)" % (shape, flags))
 
 
+ORDER_CASES = []
+REM_CASES = []
+REM_HDR = DC.HDR[:-1] + " Delta.DeltaVerify Delta.DeltaVerifyMore Delta.DeltaVerifyBase."
+OBSERVERS = ("to_flat_rows", "to_flat_dicts", "to_dict", "dumps", "repr", "_get_reverse_diff")
+
+
+def observers_leave_delta_alone(ctx, t1, t2, dd, base_case):
+    """history independence, read-only half: converting / serialising / printing a bidirectional delta must not change
+    it - afterwards the object still carries the same payload, t1 + d == t2 and t2 - d == t1 (clause REUSE)"""
+    from deepdiff import Delta
+    for name in OBSERVERS:
+        d = Delta(dd, bidirectional=True)
+        before = copy.deepcopy(d.diff)
+        try:
+            {"to_flat_rows": d.to_flat_rows, "to_flat_dicts": d.to_flat_dicts, "to_dict": d.to_dict, "dumps": d.dumps,
+             "repr": lambda: repr(d), "_get_reverse_diff": d._get_reverse_diff}[name]()
+        except Exception as e:
+            ctx.count("observer:%s:raised_%s" % (name, type(e).__name__))
+            continue
+        ctx.count("observer:" + name)
+        same = DC.delta_obs(d.diff) == DC.delta_obs(before) if DC.in_universe(t1) and DC.in_universe(t2) else repr(d.diff) == repr(before)
+        try:
+            with DC.Counting() as cnt:
+                fwd = copy.deepcopy(t1) + d
+                back = copy.deepcopy(t2) - d
+            good = V.typed_eq(fwd, t2) and V.typed_eq(back, t1) and cnt.n == 0
+            obs = dict(add=repr(fwd), sub=repr(back), errors=cnt.n)
+        except Exception as e:
+            good, obs = False, "raised %s" % type(e).__name__
+        ref_ok = holds8(t1, t2, base_case["cfg"])
+        if (not same or not good) and ref_ok:
+            # what changed: one-element sets among the added dictionary items that are empty now; anything else
+            add_b, add_a = before.get("dictionary_item_added", {}), d.diff.get("dictionary_item_added", {})
+            emptied = [p for p, v in add_b.items() if one_item_sets_added(v) and add_a.get(p) == set()]
+            rest_b = {k: ({p: v for p, v in x.items() if p not in emptied} if k == "dictionary_item_added" else x) for k, x in before.items()}
+            rest_a = {k: ({p: v for p, v in x.items() if p not in emptied} if k == "dictionary_item_added" else x) for k, x in d.diff.items()}
+            ctx.fail(dict(base_case, clause=REUSE, observer=name, payload_unchanged=same, observed=obs,
+                          emptied_one_item_sets=emptied, other_payload_changes=(repr(rest_b) != repr(rest_a))),
+                     "a bidirectional delta no longer inverts after the read-only call %s()" % name if same or not good
+                     else "the payload of a bidirectional delta changed under the read-only call %s()" % name)
+
+
+def gen_single_added(ctx, n):
+    """t2 = t1 (a dict somewhere) with one NEW key whose value is a one-element container ({x}, [x], (x,), {k: x}) or an
+    atom: the values to_flat_rows flattens"""
+    rng = ctx.rng
+    out = []
+    for _ in range(n):
+        inner = {"a": V.gen_atom(rng), "b": [V.gen_atom(rng)]}
+        x = V.gen_atom(rng)
+        new = rng.choice([{x}, [x], {"k": x}, x, frozenset([x]), {x, "zz"}])
+        try:
+            hash(x)
+        except TypeError:
+            continue
+        t1 = inner if rng.random() < 0.5 else [1, inner]
+        t2 = copy.deepcopy(t1)
+        (t2 if isinstance(t2, dict) else t2[1])["n"] = new
+        if rng.random() < 0.4:
+            (t2 if isinstance(t2, dict) else t2[1])["m"] = V.gen_atom(rng)
+        ctx.count("gen:one_element_container_added")
+        out.append((t1, t2))
+    return out
+
+
 def one_pair(ctx, t1, t2, cases, corr=True, hyp_cases=None, shared=None, all_variants=False):
     from deepdiff import DeepDiff, Delta
     from deepdiff.delta import DeltaError
@@ -509,6 +643,9 @@ def one_pair(ctx, t1, t2, cases, corr=True, hyp_cases=None, shared=None, all_var
                 ctx.count("back_and_forth_sequences")
             except Exception as e:
                 ctx.fail(dict(base_case, clause=INVERSION, observed="raised %s" % type(e).__name__), "back-and-forth sequence raised")
+        # --- read-only conversions leave the delta alone ---
+        if all_variants or rng.random() < 0.35:
+            observers_leave_delta_alone(ctx, t1, t2, dd, base_case)
         # --- a directed delta refuses subtraction, whatever the other flags are ---
         refused = {}
         for aiv in (False, True):
@@ -629,7 +766,7 @@ def one_pair(ctx, t1, t2, cases, corr=True, hyp_cases=None, shared=None, all_var
                     resd = e
             ctx.count("removed_key_corruption:" + ("raised" if raised else "accepted"))
             if not isinstance(resd, Exception):
-                drem_corrupt.append((based, resd, cnt.n))
+                drem_corrupt.append((based, resd, cnt.n, p, keys))
         # --- correspondence ---
         if guard and fwd is not None:   # (a replay runs this block too: its cases are simply not compiled)
             rem, add = DC.impl_orders(d)
@@ -657,8 +794,24 @@ def one_pair(ctx, t1, t2, cases, corr=True, hyp_cases=None, shared=None, all_var
                     # conv may be asked about the corrupted value (reverse type change without recorded value never occurs: bidirectional)
                     cases.append((DC.model_expr(t1, t2, zip_, thr, True, False, base2, conv, rrem, radd, want="sub"),
                                   [payload, [DC.canon_unordered(res2), n2 > 0]], dict(tag, op="sub on corrupted t2", base=repr(base2))))
-            for based, resd, nd in drem_corrupt:
+            for based, resd, nd, pstr, qkeys in drem_corrupt:
                 if DC.in_universe(based) and DC.in_universe(resd):
+                    # the guard of C08_detects_removed_dict_item_initial_base, mirrored in Python and evaluated in Coq
+                    drem_order = rem[len(rem) - len(d.diff.get("dictionary_item_removed", {})):]
+                    g_py = removed_key_guard(qkeys, d, drem_order)
+                    ctx.count("removed_key_guard:" + ("holds" if g_py else "fails") + (":detected" if nd > 0 else ":ACCEPTED"))
+                    qc = D.coq_pathc(DC.parse_pathc(pstr))
+                    opsr = D.coq_ops_table(D.opcode_table(t1, t2))
+                    REM_CASES.append((
+                        "(let r := run_diff hatom_deep (tbl_udiff %s) (tbl_ops %s) no_paths no_paths %s %s %s in "
+                        "let d := to_delta (tbl_conv %s) true false (tbl_ops %s) %s %s (fst r) (snd r) in "
+                        "let q := %s in "
+                        "let l1 := (fix go (l : list (path * value)) := match l with [] => [] | x :: r0 => if path_eqb (fst x) q then [] else x :: go r0 end) "
+                        "(order_by %s fst (d_drem d)) in "
+                        "SL [sx_bool (leaves_alone q d && earlier_ok q l1)])" % (
+                            D.coq_udiff_table(D.udiff_table(t1, t2)), opsr, D.coq_cfg(zip_, thr, True), V.to_coq(t1), V.to_coq(t2),
+                            conv, opsr, V.to_coq(t1), V.to_coq(t2), qc, DC.coq_paths(rem)),
+                        [g_py], dict(tag, removed_key=pstr, observable="guard of C08_detects_removed_dict_item_initial_base")))
                     convd = DC.conv_table(pairs + [(type(x.t2), get_safe(based, x)) for x in dd.get("type_changes", []) if get_safe(based, x) is not DC._NF])
                     cases.append((DC.model_expr(t1, t2, zip_, thr, True, False, based, convd, rem, add),
                                   [payload, [DC.canon_unordered(resd), nd > 0]], dict(tag, op="add on a base with a differing removed key", base=repr(based))))
@@ -741,6 +894,20 @@ def one_pair(ctx, t1, t2, cases, corr=True, hyp_cases=None, shared=None, all_var
                               else "hyp:clash_case_outside_guards_of_sub_inverts_default")
                 ctx.count("hyp:all_data_guards_of_sub_inverts_default" if (ko and (nc or (nt and kn1)))
                           else "hyp:outside_data_guards_of_sub_inverts_default")
+                # ORDER of the values_changed pass: under korder (and without a clash, whose merged level the code appends
+                # at the end) the model lists the entries in the order the implementation does
+                vpaths = [DC.parse_pathc(p_) for p_ in d.diff.get("values_changed", {})]
+                if len(vpaths) >= 2 and nc:
+                    ctx.count("order:values_changed_lists_with_2+_entries:korder_%s" % ko)
+                    if ko:
+                        ops_ = D.coq_ops_table(D.opcode_table(t1, t2))
+                        ORDER_CASES.append((
+                            "(let r := run_diff hatom_deep (tbl_udiff %s) (tbl_ops %s) no_paths no_paths %s %s %s in "
+                            "let d := to_delta (tbl_conv %s) true false (tbl_ops %s) %s %s (fst r) (snd r) in "
+                            "SL (map (fun c => sx_path (vc_path c)) (d_val d)))" % (
+                                D.coq_udiff_table(D.udiff_table(t1, t2)), ops_, D.coq_cfg(zip_, thr, True), V.to_coq(t1), V.to_coq(t2),
+                                conv, ops_, V.to_coq(t1), V.to_coq(t2)),
+                            vpaths, dict(tag, observable="ORDERED values_changed paths (korder holds, no clash)")))
                 of1, of2 = ordfree(t1), ordfree(t2)
                 clash_ok = nc or (nt and kn1)          # the disjunctive guard of the round-3 theorems
                 ctx.count("hyp:inside_guards_of_back_and_forth_default" if (ko and clash_ok) else "hyp:outside_guards_of_back_and_forth_default")
@@ -768,11 +935,14 @@ def get_safe(base, level):
 
 
 def run(ctx):
+    del ORDER_CASES[:]
+    del REM_CASES[:]
     cases = []
     hyp_cases = []
     pairs = c01.gen_random(ctx, 1700 if ctx.thorough else 250)
     pairs += gen_clash(ctx, 120 if ctx.thorough else 24)
     pairs += gen_dict_removed(ctx, 80 if ctx.thorough else 16)
+    pairs += gen_single_added(ctx, 60 if ctx.thorough else 12)
     pairs += gen_reordered(ctx, pairs, 120 if ctx.thorough else 24)
     for t1, t2 in pairs:
         mode = None
@@ -784,6 +954,8 @@ def run(ctx):
         ctx.sample(c[2])
     ctx.coq_cases("c08", DC.HDR, cases, shard=120, label="payload+add+sub+corrupted")
     ctx.coq_cases("c08hyp", HYP_HDR, hyp_cases, shard=160, label="theorem-guards")
+    ctx.coq_cases("c08ord", DC.HDR, ORDER_CASES, shard=160, label="ordered values_changed pass under korder")
+    ctx.coq_cases("c08rem", REM_HDR, REM_CASES, shard=160, label="guard of the initial-base detection of removed keys")
 
 
 def replay(ctx, data):
